@@ -3,7 +3,7 @@
 (*                                                                                          *)
 (* Function specification (generator and judge).  Two families of cases:                    *)
 (*                                                                                          *)
-(*  fn = "merge" / "mergefile"  types/daemon MergeConfigAndUnmarshal /                      *)
+(*  fn = "merge" / "mergefile" / "mergecm"  types/daemon MergeConfigAndUnmarshal /           *)
 (*       GetConfigFromFileWithMerge.  JSON documents are TLA+ values in a tagged form       *)
 (*       [t |-> tag, v |-> payload]; MergePatch is RFC 7396 written as a recursive          *)
 (*       operator straight from the RFC's pseudo code (its appendix A examples are the      *)
@@ -225,7 +225,14 @@ ChainSet ==
     ELSE ChainProduct(TypeLists, VTypes, {EnvNone, EnvAll}, BOOLEAN)       \* every list/type/provider/kernel combination
          \cup ChainProduct(CoreLists, CoreVTypes, Envs, {TRUE})             \* every node environment
 
-DomSet == MergeSet \cup MergeFileSet \cup ChainSet
+(* ConfigFromConfigMap: base = the cluster's eni-config ConfigMap, overlay = the node's dynamic ConfigMap (named by the  *)
+(* node's terway-config label), read through an API client. The function then applies defaults to unset members        *)
+(* (ip_stack, enable_patch_pod_ips among the observed keys): those two keys are left out of the comparison.            *)
+MergeCMSet ==
+    { [fn |-> "mergecm", base |-> b, overlay |-> o, form |-> "json", addon |-> FALSE] : b \in Bases, o \in FileOverlays }
+    \cup { [fn |-> "mergecm", base |-> b, overlay |-> EmptyObj, form |-> "zero", addon |-> FALSE] : b \in Bases }
+
+DomSet == MergeSet \cup MergeFileSet \cup MergeCMSet \cup ChainSet
 DomSeq == SetToSeq(DomSet)
 
 ------------------------------------------------------------------------
@@ -238,7 +245,7 @@ DomSeq == SetToSeq(DomSet)
 (* Every document of the domain is well typed, so an error is never an allowed outcome.     *)
 
 BadMerge(in, out) ==
-    LET ks      == IF in.addon THEN Keys \ SecretKeys ELSE Keys
+    LET ks      == IF in.addon THEN Keys \ SecretKeys ELSE IF in.fn = "mergecm" THEN Keys \ {"ip_stack", "enable_patch_pod_ips"} ELSE Keys
         want    == MergePatch(in.base, in.overlay)
         named   == DOMAIN in.overlay.v
         \* members of an object-valued overlay entry: names inside the base's object that the overlay does not mention
@@ -305,7 +312,7 @@ BadChain(in, out) ==
 
 Bad(c) ==
     IF c.panic # "" THEN {"panic"}
-    ELSE CASE c.in.fn \in {"merge", "mergefile"} -> BadMerge(c.in, c.out)
+    ELSE CASE c.in.fn \in {"merge", "mergefile", "mergecm"} -> BadMerge(c.in, c.out)
            [] c.in.fn = "chain" -> BadChain(c.in, c.out)
            [] OTHER -> {"unknown_case"}
 
